@@ -93,3 +93,25 @@ def build2(m):
                                           'len(lines) == _k0', NLINV],
                                decreases='len(open_levels)')},
                    prop=['C19']))
+
+
+def build3(m):
+    """TocRenderer.render_document (C19: the table of contents belongs to the document being rendered -
+    the collection starts empty; C18: the output is exactly the inherited rendering)."""
+    TOC = TRef('TocRenderer')
+    DOC = TRef('TocDocTok')
+    m.classes['TocDocTok'] = {}
+    m.ufunc('toc_html_render_document', [DOC], STR)
+    m.methods[('HtmlRenderer', 'render_document')] = 'mistletoe.html_renderer:HtmlRenderer.render_document#toc'
+    m.add(Contract('mistletoe.html_renderer:HtmlRenderer.render_document#toc', [('self', TRef('HtmlRenderer')), ('token', DOC)],
+                   returns=STR, trusted=True,
+                   ensures=['result == toc_html_render_document(token)'],
+                   modifies=['F:TocRenderer._headings'],
+                   note='the inherited rendering of the document (an uninterpreted function of the token); rendering the '
+                        'headings inside it appends to _headings (TocRenderer.render_heading, under contract)'))
+    m.add(Contract(MOD + ':TocRenderer.render_document', [('self', TOC), ('token', DOC)], returns=STR,
+                   call_asserts={'mistletoe.html_renderer:HtmlRenderer.render_document#toc': [
+                       # C19: nothing collected for an earlier document is left when this one starts to render
+                       ('len(self._headings) == 0', 'C19')]},
+                   ensures=[('result == toc_html_render_document(token)', ['C18', 'C19'])],
+                   modifies=['self._headings', 'F:TocRenderer._headings'], prop=['C19', 'C18']))
